@@ -21,6 +21,7 @@ class FakeRepl(X.Scripted):
         X.Scripted.__init__(self, script, 'u', clock)
         self.sent = []
         self.kills = []
+        self.waits = []          # the timeout each wait for a prompt was given
 
     def send(self, s):
         self.sent.append(s)
@@ -31,6 +32,10 @@ class FakeRepl(X.Scripted):
 
     def kill(self, sig):
         self.kills.append(sig)
+
+    def expect_exact(self, pattern_list, timeout=-1, searchwindowsize=-1, async_=False, **kw):
+        self.waits.append(timeout)
+        return X.Scripted.expect_exact(self, pattern_list, timeout, searchwindowsize, async_, **kw)
 
 
 def run_scripted(case):
@@ -43,17 +48,22 @@ def run_scripted(case):
         child = FakeRepl([list(e) for e in script], clock)
         out = dict(results=[])
         try:
-            w = replwrap.REPLWrapper(child, case['prompt'], None, continuation_prompt=case['cont'])
+            xi = case.get('xinit')
+            w = replwrap.REPLWrapper(child, case['prompt'], None, continuation_prompt=case['cont'],
+                                     extra_init_cmd=('\n'.join('init%d' % k for k in range(xi['lines'])) if xi else None))
             out['init'] = 'ok'
         except EOF:
             out['init'] = 'EOF'; return out
         except TIMEOUT:
             out['init'] = 'TIMEOUT'; return out
+        except ValueError:
+            out['init'] = 'ValueError'; return out          # extra_init_cmd met the continuation prompt after its last line
         for cmd in case['cmds']:
             seps = cmd.get('seps') or ['\n'] * (cmd['lines'] - 1)
             text = 'line0' + ''.join(sep + 'line%d' % (k + 1) for k, sep in enumerate(seps))
             s0 = len(child.sent)
             k0 = len(child.kills)
+            w0 = len(child.waits)
             try:
                 v = w.run_command(text, timeout=cmd.get('timeout', 5))      # 5 | -1 (the spawn's own) | None (wait for ever) | 0.5
                 out['results'].append(['value', v])
@@ -65,6 +75,12 @@ def run_scripted(case):
                 out['results'].append(['TIMEOUT', child.before]); break
             except Exception as e:      # noqa  (anything else is not part of run_command's contract)
                 out['results'].append(['EXC:' + type(e).__name__, repr(e)[:120]]); break
+            # every wait for a prompt inside this call is given the caller's timeout (the resync after an interrupt: the fixed 1 s)
+            if out['results'][-1][0] in ('value', 'ValueError'):
+                tw = cmd.get('timeout', 5)
+                want_waits = [tw] * (len(child.waits) - w0 - (1 if out['results'][-1][0] == 'ValueError' else 0)) + ([1] if out['results'][-1][0] == 'ValueError' else [])
+                if child.waits[w0:] != want_waits:
+                    out['results'][-1] = list(out['results'][-1][:2]) + ['waited with timeouts %r, the caller gave %r' % (child.waits[w0:], tw)]
             # one sendline per line of the command, whatever line separator the caller used
             want_sent = ['line%d\n' % k for k in range(cmd['lines'])]
             if out['results'][-1][0] == 'value' and child.sent[s0:] != want_sent:
@@ -90,6 +106,8 @@ def seg_text(case, seg):
 def case_script(case):
     evs = []
     segs = [case['init']]
+    if case.get('xinit'):
+        segs += case['xinit']['segs']
     for cmd in case['cmds']:
         segs += cmd['segs']
         if cmd.get('sync'):
@@ -103,7 +121,8 @@ def case_script(case):
 
 
 def model_line(case):
-    toks = ['RP', X.enc_text(case['prompt']), X.enc_text(case['cont']), ','.join(str(cmd['lines'] - 1) for cmd in case['cmds']) or '-', '@']
+    counts = ([case['xinit']['lines'] - 1] if case.get('xinit') else []) + [cmd['lines'] - 1 for cmd in case['cmds']]
+    toks = ['RP', X.enc_text(case['prompt']), X.enc_text(case['cont']), ','.join(str(c_) for c_ in counts) or '-', '@']
     for ev in case_script(case):
         toks.append('d=' + X.enc_text(ev[1]) if ev[0] == 'd' else ev[0] if ev[0] != 'E' else 'E E E E E E E E E E E E')
     return ' '.join(toks)
@@ -126,11 +145,15 @@ def canon_real(case, out):
 def compare_model(case, out, mline):
     real = canon_real(case, out)
     mp = mline.split(' | ')
+    if real == 'init=ValueError':
+        return None if (case.get('xinit') and len(mp) > 2 and mp[1] == 'ValueError') else 'init: the constructor raised ValueError, model %r' % (mp[:2],)
     if isinstance(real, str):
         return None if mp[0] == real else 'init: model %r real %r' % (mp[0], real)
     if not mp[0].startswith('init=0') and not mp[0].startswith('init=1'):
         return 'init: model %r real ok' % mp[0]
     mres = mp[1:-1]
+    if case.get('xinit'):
+        mres = mres[1:]            # extra_init_cmd runs as a command of its own; its value is discarded
     for n, r in enumerate(real):
         if n >= len(mres) or mres[n] != r:
             return 'command %d: model %r real %r' % (n, mres[n] if n < len(mres) else None, r)
@@ -170,13 +193,16 @@ def rand_case(rng, clean=True):
         cmds.append(dict(lines=lines, segs=segs, sync=(mk(False) if incomplete else None), timeout=rng.choice([5, 5, -1, None, 0.5]),
                          seps=[rng.choice(['\n', '\n', '\r\n', '\r', '\x0c', '\u2028']) for _ in range(lines - 1)]))
     case = dict(prompt=prompt, cont=cont, init=mk(False), cmds=cmds)
+    if rng.random() < 0.25:
+        nl = rng.choice([1, 2, 3])          # extra_init_cmd of one to three lines, run before the first command
+        case['xinit'] = dict(lines=nl, segs=[mk(rng.random() < 0.7) for _ in range(nl - 1)] + [mk(False)])
     if rng.random() < 0.15:
         case['tail'] = rng.choice([['E'], ['T']])
     return case
 
 
 def all_segs(case):
-    segs = [case['init']]
+    segs = [case['init']] + (case['xinit']['segs'] if case.get('xinit') else [])
     for cmd in case['cmds']:
         segs += cmd['segs'] + ([cmd['sync']] if cmd.get('sync') else [])
     return segs
